@@ -150,7 +150,15 @@ class Walk:
         self.price_kind = price_kind
         self.prices = gen_prices(rng, self.names, price_kind)
         self.bar = 0
-        self.fz = Dr.Frozen([self.m], pd.Series(self.prices), None, {t: WALLET for t in self.w.tokens}, self.w.index[0])
+        self.sib = None
+        if rng.random() < 0.3:
+            # Aave on a second chain under the same account (same token names, other indices and risk rows), see vmon/decoy.py
+            from ..decoy import AaveSibling
+
+            self.sib = AaveSibling(rng, self.w)
+            mon.cls("sibling/aave")
+        self.fz = Dr.Frozen([self.m] + ([self.sib.m] if self.sib else []), pd.Series(self.prices), None,
+                            {t: WALLET for t in self.w.tokens}, self.w.index[0])
         self.led = O.Ledger()
         self.trace = []
         self.sampled = False
@@ -715,6 +723,9 @@ def one_case(mon, rng, c, tier):
                ("supply", 2), ("repay", 2)]
     bag = [k for k, n in weights for _ in range(n)]
     for _ in range(steps):
+        if wk.sib is not None and rng.random() < 0.4:
+            wk.sib.poke(rng)
+            mon.hit("sibling-poke")
         getattr(wk, "step_" + rng.choice(bag))()
 
 
